@@ -78,6 +78,16 @@ def check(chk: Check) -> None:
                         'the engine entry point %s is exposed raw: the program chooses every argument, no timeout is passed' % ent.target)
             continue
         paths = SymExec(F, fi).run()
+        va = getattr(fi.node.args, 'vararg', None)
+        if va is not None:
+            # the language calls the entry with as many positional arguments as the program writes: a *args forwarder is
+            # analysed once per arity, so that each argument is seen where the callee binds it
+            for k in range(0, 6):
+                bind = {va.arg: ('tuple',) + tuple(('param', 'arg%d' % i) for i in range(k))}
+                try:
+                    paths += SymExec(F, fi, args=bind).run()
+                except AnalysisError:
+                    pass
         sites: Dict[str, Tuple[bool, str, int, str]] = {}
         nested = []
         uses_engine = False
